@@ -8,6 +8,8 @@ CONSTANTS
   TamperMode = "singles"
   TamperVariants = {0}
   TamperAllVariants = {}
+  HoldMode = "none"
+  Aliased = {}
   HelperKeyMax = 0
   HelperTexts = {0}
 INVARIANTS NoReframing
